@@ -7,6 +7,8 @@
 import Shm.Model.Machine
 import Shm.Crypto.More
 import Shm.Crypto.DES
+import Shm.Crypto.MD5
+import Shm.Crypto.RsaPad
 import Shm.Proto
 namespace Shm.CryptoMon
 open Shm Shm.Crypto
@@ -44,7 +46,8 @@ def Mon.attrsOf (m : Mon) (o : Obj) : Attrs :=
 def attrBytes (o : Attrs) (ty : Nat) : Option Bytes := match getA o ty with | some (.bytes v _) => some v | _ => none
 
 def hashOf (mech : Nat) : Option (String × (Bytes → Bytes)) :=
-  if mech == 0x220 || mech == 0x221 || mech == 0x6 then some ("sha1", sha1)
+  if mech == 0x210 || mech == 0x211 then some ("md5", md5)
+  else if mech == 0x220 || mech == 0x221 || mech == 0x6 then some ("sha1", sha1)
   else if mech == 0x255 || mech == 0x256 || mech == 0x46 then some ("sha224", sha224)
   else if mech == 0x250 || mech == 0x251 || mech == 0x40 then some ("sha256", sha256)
   else if mech == 0x260 || mech == 0x261 || mech == 0x41 then some ("sha384", sha384)
@@ -95,10 +98,24 @@ def refDecrypt (o : MonOp) : Option (Option Bytes) := do
   else if o.mech == 0x1087 then some (gcmDecrypt E (o.p.raw.headD []) (o.p.raw.getD 1 []) o.inp ((o.p.nums.getD 2 128) / 8))
   else none
 
+/-- reference RSA decryption of `c` with the private key attributes `priv` (modulus, private exponent) under the operation's mechanism: CKM_RSA_PKCS (EME-PKCS1-v1_5),
+    CKM_RSA_X_509 (raw) and CKM_RSA_PKCS_OAEP (SHA-1, MGF1-SHA-1, empty label - what the token supports).  Outer `none`: not computed; inner `none`: decryption error -/
+def rsaDecryptRef (mech : Nat) (priv : Attrs) (c : Bytes) : Option (Option Bytes) := do
+  let n ← attrBytes priv 0x120
+  let d ← attrBytes priv 0x123
+  let k := (n.dropWhile (· == 0)).length
+  if c.length != k then some none else
+  let em := rsaPrivate (bytesToNat n) (bytesToNat d) k c
+  if mech == 0x1 then some (emePkcs1Decode em)
+  else if mech == 0x3 then some (some em)
+  else if mech == 0x9 then some (emeOaepDecode sha1 sha1 em)
+  else none
+
 /-- reference MAC / deterministic signature -/
 def refMac (o : MonOp) : Option Bytes := do
   let key ← o.key.bind (attrBytes · CKA.VALUE)
-  if o.mech == 0x221 then some (hmac64 sha1 key o.inp)
+  if o.mech == 0x211 then some (hmac64 md5 key o.inp)
+  else if o.mech == 0x221 then some (hmac64 sha1 key o.inp)
   else if o.mech == 0x256 then some (hmac64 sha224 key o.inp)
   else if o.mech == 0x251 then some (hmac64 sha256 key o.inp)
   else if o.mech == 0x261 then some (hmac128 sha384 key o.inp)
@@ -119,6 +136,21 @@ def refVerify (o : MonOp) (sig : Bytes) : Option Bool := do
     let em := rsaPublic (bytesToNat n) (bytesToNat e) k sig
     if o.mech == 0x1 then (emsaPkcs1 o.inp k).map (· == em) |>.orElse (fun _ => some false)
     else if o.mech == 0x3 then some (em == List.replicate (k - o.inp.length) 0 ++ o.inp)
+    else if [0xD, 0xE, 0x43, 0x44, 0x45, 0x47].contains o.mech then
+      -- RSASSA-PSS (RFC 8017 8.1.2): CKM_RSA_PKCS_PSS signs a hash the caller computed; the CKM_SHAx_RSA_PKCS_PSS mechanisms hash the message themselves.
+      -- parameters (hashAlg, mgf, sLen); hash and MGF1 hash as the parameters name them (the token insists that they agree with the mechanism)
+      let byMgf (g : Nat) : Option (Bytes → Bytes) := if g == 1 then some sha1 else if g == 2 then some sha256 else if g == 3 then some sha384 else if g == 4 then some sha512 else if g == 5 then some sha224 else none
+      let byMech (m : Nat) : Option (Bytes → Bytes) := if m == 0xE then some sha1 else if m == 0x43 then some sha256 else if m == 0x44 then some sha384 else if m == 0x45 then some sha512 else if m == 0x47 then some sha224 else none
+      -- the harness writes the hash parameter as the hexadecimal mechanism number (220, 250, 260, 270, 255), read here as decimal digits
+      let byParam (h : Nat) : Option (Bytes → Bytes) := if h == 220 then some sha1 else if h == 250 then some sha256 else if h == 260 then some sha384 else if h == 270 then some sha512 else if h == 255 then some sha224 else none
+      let sLen := o.p.nums.getD 2 0
+      let modBits := (bytesToNat n).log2 + 1
+      match (if o.mech == 0xD then byParam (o.p.nums.getD 0 0) else byMech o.mech), byMgf (o.p.nums.getD 1 0) with
+      | some hf, some mg =>
+        let mHash := if o.mech == 0xD then o.inp else hf o.inp
+        let emLen := (modBits - 1 + 7) / 8
+        some (emsaPssVerify hf mg mHash (em.drop (k - emLen)) (modBits - 1) sLen && (em.take (k - emLen)).all (· == 0))
+      | _, _ => none
     else match hashOf o.mech with
       | some (name, hf) => if [0x6, 0x46, 0x40, 0x41, 0x42].contains o.mech then (emsaPkcs1 (digestInfoPrefix name ++ hf o.inp) k).map (· == em) else none
       | none => none
@@ -135,12 +167,27 @@ def refVerify (o : MonOp) (sig : Bytes) : Option Bool := do
     q.map fun qq => ecdsaVerifyP256 qq o.inp sig
   else (refMac o).map (· == sig)
 
-def refDigest (o : MonOp) : Option Bytes := (hashOf o.mech).bind fun (_, hf) => if [0x220, 0x255, 0x250, 0x260, 0x270].contains o.mech then some (hf o.inp) else none
+def refDigest (o : MonOp) : Option Bytes := (hashOf o.mech).bind fun (_, hf) => if [0x210, 0x220, 0x255, 0x250, 0x260, 0x270].contains o.mech then some (hf o.inp) else none
 
 /-- verdict on a completed operation: `none` agreement or not computed, `some text` disagreement -/
 def judgeFinish (o : MonOp) (rv : Nat) (sigArg : Option Bytes) : Option String × String :=
   let hex := toHex
-  if o.kind == "enc" then
+  let isRsa := getULongD (o.key.getD []) CKA.KEY_TYPE 0xFFFF == CKK.RSA
+  if o.kind == "enc" && isRsa then
+    -- the token encrypted with a public key (randomised for PKCS#1 / OAEP): the reference decrypts the token's output with the private exponent of the same modulus
+    (if rv != 0 then (none, "failed") else
+     match o.pub.bind (fun pr => rsaDecryptRef o.mech pr o.out) with
+     | none => (none, "notcomputed")
+     | some (some m) =>
+       let want := if o.mech == 0x3 then List.replicate (m.length - o.inp.length) 0 ++ o.inp else o.inp
+       if m == want then (none, "decrypts") else (some s!"the reference decrypts the token's RSA ciphertext to {hex m}, not to the plaintext {hex o.inp}", "differ")
+     | some none => (some "the reference cannot decrypt the token's RSA ciphertext (padding / length)", "differ"))
+  else if o.kind == "dec" && isRsa then
+    (match o.key.bind (fun pr => rsaDecryptRef o.mech pr o.inp) with
+     | none => (none, "notcomputed")
+     | some (some want) => if rv == 0 then (if want == o.out then (none, "equal") else (some s!"RSA plaintext: reference {hex want} token {hex o.out}", "differ")) else (none, "token-refuses")
+     | some none => if rv == 0 then (some s!"the token decrypts (to {hex o.out}) an RSA ciphertext the reference rejects", "differ") else (none, "both-refuse"))
+  else if o.kind == "enc" then
     (match refEncrypt o with
      | none => (none, "notcomputed")
      | some (some want) => if rv == 0 then (if want == o.out then (none, "equal") else (some s!"ciphertext: reference {hex want} token {hex o.out}", "differ")) else (some s!"the token refuses (rv={rv}) what the reference encrypts", "differ")
@@ -218,7 +265,12 @@ def step (st : State) (m : Mon) (op res : List String) : Mon × Option (Option S
       | some (mech, p) =>
         let kobj := (resolveObj st (((res.getD 2 "").toNat?).getD 0)).map (·.2)
         let key := kobj.map m.attrsOf
-        let pub : Option Attrs := kobj.bind fun ko => (m.pairs.lookup ko.oid).bind fun po => (st.objs.find? (·.oid == po)).map m.attrsOf
+        let pub0 : Option Attrs := kobj.bind fun ko => (m.pairs.lookup ko.oid).bind fun po => (st.objs.find? (·.oid == po)).map m.attrsOf
+        -- for an RSA PUBLIC key: the attributes of an object with the same modulus that carries the private exponent (the peer the reference decrypts with)
+        let peer : Option Attrs := key.bind fun ka => (attrBytes ka 0x120).bind fun n =>
+          if (attrBytes ka 0x123).isSome then none else
+          (st.objs.find? (fun ob => attrBytes (m.attrsOf ob) 0x120 == some n && (attrBytes (m.attrsOf ob) 0x123).isSome)).map m.attrsOf
+        let pub : Option Attrs := if opn == "encinit" then peer.orElse (fun _ => pub0) else pub0
         let kind := if opn == "encinit" then "enc" else if opn == "decinit" then "dec" else if opn == "siginit" then "sign" else "verify"
         (m.set h { kind := kind, mech := mech, p := p, key := key, pub := pub }, none)
     else if ["enc", "dec", "sign", "digest"].contains opn then
